@@ -31,7 +31,7 @@ type HistOpts struct {
 	// (at most 6 records) in which one string in five is 66000..140000 bytes, so
 	// single page bodies exceed 64 KiB without many records.
 	HugePct int
-	// BoundaryPct: percent of histories of the "boundary" class: the page size is
+	// BoundaryPct: PER MILLE of histories of the "boundary" class: the page size is
 	// one of the sizes at which varints and run headers change length (127, 128,
 	// 129, 8191, 8192, 8193, 16383, 16384), batches are exactly one or two
 	// pages (or one page plus one record), and every pointer of a record is
@@ -74,7 +74,7 @@ func GenHistory(r *Rng, o HistOpts) *WriterSpec {
 		}
 		w.Large = true
 	}
-	if o.BoundaryPct > 0 && r.Intn(1000) < o.BoundaryPct*10 {
+	if o.BoundaryPct > 0 && r.Intn(1000) < o.BoundaryPct {
 		return genBoundary(r, o)
 	}
 	if !o.NoEdge && r.Intn(100) < 15 {
